@@ -39,7 +39,7 @@ func census(j *Journal) ([]string, bool) {
 		case "open", "close":
 			out = append(out, fmt.Sprintf("%s %s %s", d.Date, d.Kind, d.Account))
 		case "price":
-			out = append(out, fmt.Sprintf("%s price %s %s %s", d.Date, d.Com, d.Price.String(), d.Target))
+			out = append(out, fmt.Sprintf("%s price %s %s %s", d.Date, d.Com, d.PriceDec().String(), d.Target))
 		case "assert":
 			var bs []string
 			for _, b := range d.Balances {
@@ -83,22 +83,20 @@ func canonBooking(credit, debit string, q Q, com string) string {
 func censusOfPrinted(ds []PDir) ([]string, error) {
 	var out []string
 	for _, d := range ds {
-		lines := strings.Split(d.Text, "\n")
 		perf := ""
-		for len(lines) > 0 && strings.HasPrefix(lines[0], "@") {
-			perf += lines[0] + " "
-			lines = lines[1:]
+		for _, a := range d.Addons {
+			perf += a + " "
 		}
-		f := strings.Fields(lines[0])
+		f := strings.Fields(d.Head)
 		switch d.Kind {
 		case "open", "close":
 			if len(f) != 3 {
-				return nil, fmt.Errorf("bad %s: %q", d.Kind, lines[0])
+				return nil, fmt.Errorf("bad %s: %q", d.Kind, d.Head)
 			}
 			out = append(out, fmt.Sprintf("%s %s %s", f[0], d.Kind, f[2]))
 		case "price":
 			if len(f) != 5 {
-				return nil, fmt.Errorf("bad price: %q", lines[0])
+				return nil, fmt.Errorf("bad price: %q", d.Head)
 			}
 			out = append(out, fmt.Sprintf("%s price %s %s %s", f[0], f[2], normNum(f[3]), f[4]))
 		case "assert":
@@ -106,7 +104,7 @@ func censusOfPrinted(ds []PDir) ([]string, error) {
 			if len(f) == 5 {
 				bs = append(bs, fmt.Sprintf("%s %s %s", f[2], normNum(f[3]), f[4]))
 			}
-			for _, l := range lines[1:] {
+			for _, l := range d.Body {
 				g := strings.Fields(l)
 				if len(g) != 3 {
 					return nil, fmt.Errorf("bad balance line: %q", l)
@@ -115,7 +113,7 @@ func censusOfPrinted(ds []PDir) ([]string, error) {
 			}
 			out = append(out, fmt.Sprintf("%s assert %s", f[0], strings.Join(bs, "; ")))
 		case "txn":
-			head := lines[0]
+			head := d.Head
 			q1 := strings.IndexByte(head, '"')
 			q2 := strings.LastIndexByte(head, '"')
 			if q1 < 0 || q2 <= q1 {
@@ -123,7 +121,7 @@ func censusOfPrinted(ds []PDir) ([]string, error) {
 			}
 			desc := head[q1+1 : q2]
 			var bs []string
-			for _, l := range lines[1:] {
+			for _, l := range d.Body {
 				g := strings.Fields(l)
 				if len(g) != 4 {
 					return nil, fmt.Errorf("bad booking line: %q", l)
